@@ -584,7 +584,17 @@ pub fn replay_c06(r: &Value) {
                     if pt >= t && pi == i { break; }
                     run.step();
                 }
-                if variant % 2 == 1 { run.step(); run.bus.abort_tx(i as u8, run.now); }
+                if variant % 2 == 1 {
+                    let before_tx = run.bus.tx_count;
+                    run.step();
+                    let mut cut = run.now;
+                    if let (Some(first_only), true) = (job["partial"].as_bool(), run.bus.tx_count > before_tx) {
+                        let len = run.bus.trace.last().map(|t| t.bytes.len()).unwrap_or(1) as i64;
+                        let keep = if first_only { 1 } else { (len - 1).max(1) };
+                        cut = run.now + run.bus.bits_us_floor(11 * keep) + 1;
+                    }
+                    run.bus.abort_tx(i as u8, cut);
+                }
                 run.crashed[i] = true;
                 if variant >= 2 {
                     let d = if variant == 2 { 2 } else { 40 } * sc.slot_bits as i64 * 1_000_000 / BAUDS[sc.baud].1 as i64;
@@ -605,6 +615,10 @@ pub fn replay_c06(r: &Value) {
 }
 
 pub fn replay(v: &Value) {
+    if v["replay"]["world"] == "w3-forged" {
+        replay_forged(&v["replay"]);
+        return;
+    }
     if v["replay"]["world"] == "w3-fault" {
         replay_c06(&v["replay"]);
         return;
@@ -951,14 +965,32 @@ pub fn run_c06(tier: Tier) -> ! {
         }
         let stride = tier.pick(3usize, 1);
         crash_jobs.par_iter().step_by(stride).for_each(|(snap, i, t)| {
-            for variant in 0..tier.pick(2, 4) {
-                // variant 0: crash just before this poll; 1: crash right after it (possibly mid-transmission),
-                // 2/3: the same with a restart after 2 / 40 slot times
+            for variant in 0..tier.pick(4, 6) {
+                // variant 0: crash just before this poll; 1: crash right after it, the transmission it may
+                // have started never reaches the bus; 2/3: the same with a restart after 2 / 40 slot times;
+                // 4/5 (quick: mapped onto 2/3): crash mid-transmission — only the first byte / all but the
+                // last byte of the telegram it just started are on the bus, nothing follows
                 let mut run = snap.clone();
+                let (variant, partial): (u8, Option<bool>) = match (tier, variant) {
+                    (Tier::Quick, 2) => (1, Some(true)),
+                    (Tier::Quick, 3) => (1, Some(false)),
+                    (_, 4) => (1, Some(true)),
+                    (_, 5) => (1, Some(false)),
+                    (_, v) => (v as u8, None),
+                };
                 let after = variant % 2 == 1;
                 if after {
+                    let before_tx = run.bus.tx_count;
                     run.step();
-                    run.bus.abort_tx(*i as u8, run.now);
+                    let mut cut = run.now;
+                    if let (Some(first_only), true) = (partial, run.bus.tx_count > before_tx) {
+                        // the telegram just started has `len` bytes; keep 1 or len-1 of them
+                        let len = run.bus.trace.last().map(|t| t.bytes.len()).unwrap_or(1) as i64;
+                        let keep = if first_only { 1 } else { (len - 1).max(1) };
+                        cut = run.now + run.bus.bits_us_floor(11 * keep) + 1;
+                        ctx().witness("c06_partial_telegram_left_on_bus");
+                    }
+                    run.bus.abort_tx(*i as u8, cut);
                 }
                 run.crashed[*i] = true;
                 if variant >= 2 {
@@ -966,7 +998,7 @@ pub fn run_c06(tier: Tier) -> ! {
                     run.restart_at[*i] = Some(*t + d);
                 }
                 let t_fault = if variant >= 2 { run.restart_at[*i].unwrap() } else { *t };
-                c06_finish(&mut run, sc, t_fault, &format!("crash of #{} at t={}us variant {}", sc.addrs[*i], t, variant), &tally, json!({"kind":"crash","station": i, "t_us": t, "variant": variant}));
+                c06_finish(&mut run, sc, t_fault, &format!("crash of #{} at t={}us variant {}", sc.addrs[*i], t, variant), &tally, json!({"kind":"crash","station": i, "t_us": t, "variant": variant, "partial": partial}));
             }
         });
     });
@@ -1008,7 +1040,107 @@ pub fn run_c06(tier: Tier) -> ! {
     let outcomes = tally.outcomes.lock().unwrap().clone();
     ev.distinct_outcomes = outcomes.len() as u64;
     ev.extra.insert("outcomes".into(), json!(outcomes));
-    ev.required_witnesses = vec!["c06_recovered"];
+    ev.required_witnesses = vec!["c06_recovered", "c06_partial_telegram_left_on_bus"];
     ev.assumptions.push("collisions are modelled as corrupted bytes (BusSim); a station that took itself offline after two address-collision observations is not 'online'".into());
     finish(ev)
+}
+
+
+// ------------------------------------------------------------------------------------------------
+// C11 part (2): token acceptance inside a running ring of real stations — forged token offers from a
+// station that is not the predecessor are injected after every telegram of a window; the addressed
+// station must not start transmitting on a first offer (C01's permission monitor decides).
+
+pub fn c11_forged_offers(tier: Tier) -> (u64, u64) {
+    let sets: Vec<(Vec<u8>, u8)> = tier.pick(vec![(vec![1, 2], 6), (vec![0, 3, 5], 6)], vec![(vec![1, 2], 6), (vec![0, 3, 5], 6), (vec![0, 5], 6), (vec![2, 4, 5], 7), (vec![0, 1, 2, 5], 6)]);
+    let runs = AtomicU64::new(0);
+    let polls = AtomicU64::new(0);
+    sets.par_iter().for_each(|(addrs, hsa)| {
+        for divs in tier.pick(vec![vec![16i64]], vec![vec![16], vec![4], vec![16, 4]]) {
+            let sc = Scenario { addrs: addrs.clone(), hsa: *hsa, gap: 1, baud: 1, slot_bits: 300, ttr: None, divs: divs.clone(), phases: vec![0, 1, 2], loads: vec![Load::None], late: vec![], responders: vec![] };
+            let cfg = Arc::new(sc.build());
+            let mut base = W3Run::new(&cfg);
+            while base.now < cfg.converge_by_us && base.panic.is_none() {
+                base.step();
+            }
+            if base.panic.is_some() || !base.c01.violations.is_empty() {
+                continue;
+            }
+            let (_, _, r) = bounds_us(addrs.len(), *addrs.iter().max().unwrap(), *hsa, 1, 300, 20.0, 1);
+            let first_tx = base.bus.tx_count;
+            // how many telegrams are in a window of HSA+3 rotations
+            let mut probe = base.clone();
+            let t0 = probe.now;
+            while probe.now < t0 + r * (*hsa as i64 + 3) {
+                probe.step();
+            }
+            let n_tx = probe.bus.tx_count - first_tx;
+            // strangers: an unused address below HSA, one above HSA
+            let unused: Vec<u8> = (0..*hsa).filter(|a| !addrs.contains(a)).collect();
+            let strangers: Vec<u8> = vec![*unused.first().unwrap_or(&100), 100];
+            let jobs: Vec<(usize, u8, u8, bool)> = (0..n_tx).step_by(tier.pick(2, 1)).flat_map(|k| addrs.iter().flat_map(move |s| [(k, *s, false), (k, *s, true)])).flat_map(|(k, s, dbl)| strangers.iter().map(move |x| (k, s, *x, dbl)).collect::<Vec<_>>()).collect();
+            jobs.par_iter().for_each(|(k, target, stranger, double)| {
+                let mut run = base.clone();
+                let tok = crate::refcodec::encode(&crate::refcodec::token(*target, *stranger));
+                run.forged.push((first_tx + k, tok.clone()));
+                if *double {
+                    run.forged.push((first_tx + k, tok.clone()));
+                }
+                run.horizon_us = run.now + r * (*hsa as i64 + 3) + r * 6;
+                while !run.done() {
+                    run.step();
+                }
+                runs.fetch_add(1, Ordering::Relaxed);
+                polls.fetch_add(run.polls, Ordering::Relaxed);
+                if let Some(p) = &run.panic {
+                    ctx().violation(format!("c11.ring.run_ended_by_panic.{}", p.split(' ').next().unwrap_or("")), p.clone(), json!({"world":"w3-forged","scenario": sc.to_json(), "after_telegram": k, "target": target, "stranger": stranger, "double": double}), 5);
+                    return;
+                }
+                let accepted_double = *double && run.forged_offers.iter().any(|o| o.2 >= 2);
+                if accepted_double {
+                    ctx().witness("c11_ring_second_offer_delivered");
+                }
+                // a second offer legitimately creates a second token holder (the forger's fault): only the
+                // single, first offers are judged by the single-holder permission monitor
+                for (sig, detail) in run.c01.violations.iter().filter(|v| !*double && v.0.contains("without_permission")).take(1) {
+                    ctx().violation(
+                        format!("c11.ring.{}", sig.trim_start_matches("c01.")),
+                        format!("{detail} [forged token {stranger}->{target} ({}) injected 11 bit after telegram #{k}; stations {:?} HSA {} divs {:?}]", if *double { "twice" } else { "once" }, addrs, hsa, divs),
+                        json!({"world":"w3-forged","scenario": sc.to_json(), "after_telegram": k, "target": target, "stranger": stranger, "double": double}),
+                        (addrs.len() * 10 + *double as usize) as u64,
+                    );
+                }
+                ctx().witness("c11_ring_forged_offer_run");
+            });
+        }
+    });
+    (runs.load(Ordering::Relaxed), polls.load(Ordering::Relaxed))
+}
+
+pub fn replay_forged(r: &Value) {
+    let sc = Scenario::from_json(&r["scenario"]);
+    let cfg = Arc::new(sc.build());
+    let mut run = W3Run::new(&cfg);
+    while run.now < cfg.converge_by_us && run.panic.is_none() {
+        run.step();
+    }
+    let first_tx = run.bus.tx_count;
+    let k = r["after_telegram"].as_u64().unwrap() as usize;
+    let tok = crate::refcodec::encode(&crate::refcodec::token(r["target"].as_u64().unwrap() as u8, r["stranger"].as_u64().unwrap() as u8));
+    run.forged.push((first_tx + k, tok.clone()));
+    if r["double"].as_bool().unwrap_or(false) {
+        run.forged.push((first_tx + k, tok));
+    }
+    let mark = run.log.len();
+    let (_, _, rr) = bounds_us(sc.addrs.len(), *sc.addrs.iter().max().unwrap(), sc.hsa, 1, 300, 20.0, 1);
+    run.horizon_us = run.now + rr * (sc.hsa as i64 + 9);
+    while !run.done() {
+        run.step();
+    }
+    let rate = run.bus.rate;
+    println!("(converged at {} us, log index {mark}, first_tx {first_tx})", cfg.converge_by_us);
+    for (a, f, s, e) in run.log.iter().skip((mark + k).saturating_sub(6)).take(40) {
+        println!("{:>10} us .. {:>10} us  #{:<3} {}", s / rate, e / rate, a, f.as_ref().map(|f| f.short()).unwrap_or("??".into()));
+    }
+    println!("monitor: {:?}", run.c01.violations);
 }
